@@ -1799,6 +1799,19 @@ func genC15(g *G, sc *Scenario, tier string) {
 	if publicNS {
 		sc.Knobs["publicNS"] = 1
 	}
+	if g.P(0.04) {
+		// a dataset of a few hundred entities (internal ids beyond one byte), read back in pages of 1, 2 and 3
+		var ents []Ent
+		for k := 0; k < 300; k++ {
+			ents = append(ents, Ent{"id": fmt.Sprintf("%sbig%03d", MkE, k), "props": map[string]any{MkS + "n": float64(k)}, "refs": map[string]any{}})
+		}
+		m.Batch("src", ents)
+		sc.Ops = append(sc.Ops, Op{K: "payload", Ents: ents, N: g.Intn(6)})
+		for _, l := range []int{1, 2, 3} {
+			sc.Ops = append(sc.Ops, Op{K: "readback", S: "entities", Limit: l})
+		}
+		sc.Ops = append(sc.Ops, Op{K: "readback", S: "changes", Limit: 7}, Op{K: "readback", S: "latest", Limit: 64})
+	}
 	for rd := g.Range(1, 3); rd > 0; rd-- {
 		for k := g.Range(1, 3); k > 0; k-- {
 			ents := g.batch(c, m, "src")
